@@ -3,6 +3,7 @@ C02 — parsed expression trees follow the language's precedence and associativi
 
 Objects:
 * `Pratt.Tbl`, `parseTop`, `render` (Model/Pratt.lean): the operator-precedence reading of the `Expression` grammar;
+* `parseList`, `renderList` (Model/ExprList.lean): the comma list `ExprList` around it; which side its recursion is on is regenerated;
 * `ExprTable.utapT` : the table *regenerated on every run* from parser.y's %left/%right block, the `Expression`,
   `Assignment`, `AssignOp`, `UnaryOp`, `BuiltinFunction1-3` productions with their %prec annotations and builder
   callbacks (translate/exprgrammar.py → Gen/ExprGrammar.lean);
@@ -13,6 +14,7 @@ depth); the instance for today's grammar needs only finite facts about the gener
 An edit to parser.y changes Gen/ExprGrammar.lean, hence `utapT`, hence these obligations.
 -/
 import UtapModel.Lemmas.PrattRender
+import UtapModel.Lemmas.ExprList
 import UtapModel.Lemmas.LexNum
 import UtapModel.Spec.OperatorTable
 
@@ -104,6 +106,25 @@ theorem C02_int_literal (n k : Nat) :
 
 /-- `- 2147483648` is the constant INT_MIN -/
 theorem C02_int_min : parseTop utapT [.sym mt, .posNegMax] = some (.atom .intMin) := by decide +kernel
+
+/-! ### comma lists (`ExprList`: update labels, `for (;;)` clauses, `while` / `if` / `switch` heads, before_update / after_update) -/
+
+/-- the recursion of the generated `ExprList` rule is on the side the reference table prescribes -/
+theorem utap_comma_matches_spec : exprListLeftRec = commaLeftAssoc := by decide
+
+/-- **a comma list of any length nests to the left**: rendering the elements `e, x₁, …, xₙ` (minimally or fully parenthesised) and
+parsing the text with today's grammar gives COMMA(…COMMA(COMMA(e, x₁), x₂)…, xₙ) -/
+theorem C02_comma_list (full : Bool) (e : Expr) (es : List Expr) (he : wf utapT mt false e = true)
+    (hes : ∀ x ∈ es, wf utapT mt false x = true) :
+    parseList utapT exprListLeftRec (renderList utapT mt full e es) = some (nestLeft (.one e) es) := by
+  have h := parseList_render utapT mt utapT_tern_le_quest full exprListLeftRec e es he hes
+  have hl : exprListLeftRec = true := by decide
+  simpa only [nest, hl, if_true] using h
+
+/-- why lists of one and two elements say nothing about the side of the recursion, and lists of three do -/
+theorem C02_comma_two (e : Expr) (es : List Expr) (h : es.length ≤ 1) : nest true e es = nest false e es := nest_le_two e es h
+theorem C02_comma_three_differ (a b c : Expr) : nest true a [b, c] ≠ nest false a [b, c] := by
+  simp [nest, nestLeft, nestRight]
 
 /-! ### non-vacuity: concrete trees of the fragment, and what their renderings look like -/
 example : wf utapT mt false
